@@ -218,13 +218,13 @@ def function(ip: Interp, fn: PyConst, args, kwargs, n):
             return PyConst('record', S.record_name(x.sort()))
         ip.oos('type() of this value', n)
     if name in ('out_ok', 'out_frame', 'out_ret', 'out_cut', 'out_fail_frame'):
-        f, fr, w = args
+        f, fr = args
         ident = f.ident if isinstance(f, (FuncVal, Opaque)) else None
         if ident is None:
             ip.oos(f'{name}: first argument must be a parse function', n)
         fr = fr.get() if isinstance(fr, ZRec) else fr
         rs = {'out_ok': z3.BoolSort(), 'out_frame': S.RECORDS['Frame'], 'out_fail_frame': S.RECORDS['Frame'], 'out_ret': Val, 'out_cut': z3.BoolSort()}[name]
-        return ip.w.uf(name, z3.IntSort(), S.RECORDS['Frame'], z3.IntSort(), rs)(ident, fr, ip.as_int(w, n))
+        return ip.w.uf(name, z3.IntSort(), S.RECORDS['Frame'], rs)(ident, fr)
     if name in ('dict_with', 'dict_get', 'dict_has'):
         d = args[0]
         if isinstance(d, ZRec):
